@@ -212,6 +212,40 @@ func c05Explore(src *choice.Src) *core.Result {
 		return res
 	}
 	beforeCreate := fmt.Sprint(pathsOfList(list))
+	// A busy process: an earlier Create of its own failed while copying a file, and another of its
+	// goroutines creates a second archive while this Create is inside a Read of one of its files.
+	if src.Bool(1, 4) {
+		var host *simFile
+		for _, f := range t.files {
+			if f.path != "go.mod" && !f.virtual && len(f.content) > 0 && f.mode.IsRegular() {
+				host = f
+				break
+			}
+		}
+		if host != nil {
+			ostats := &zipIOStats{}
+			bad := &simFile{path: "broken.txt", mode: 0o644, content: []byte(strings.Repeat("x", 64)), size: 64, readErr: 32, stats: ostats}
+			if err := modzip.Create(io.Discard, zipModules[0].m, []modzip.File{bad}); err == nil {
+				res.Fail("C05", "archive-readable", "Create reported success although a file could not be read", "one file of 64 bytes whose reads fail after 32 bytes")
+				return res
+			}
+			odata := strings.Repeat("written meanwhile\n", 40)
+			oprefix := zipModules[0].m.Path + "@" + zipModules[0].m.Version + "/"
+			host.meanwhile = func() {
+				var ob bytes.Buffer
+				of := &simFile{path: "meanwhile.txt", mode: 0o644, content: []byte(odata), size: int64(len(odata)), readErr: -1, stats: ostats}
+				err := modzip.Create(&ob, zipModules[0].m, []modzip.File{of})
+				var got map[string]string
+				if err == nil {
+					_, got, err = archiveEntries(ob.Bytes())
+				}
+				if err != nil || len(got) != 1 || got[oprefix+"meanwhile.txt"] != odata {
+					res.Fail("C05", "archive-has-exactly-valid-files", "an archive created while another Create call is reading a file does not hold its file", "Create of one file meanwhile.txt (%d bytes): error %v, archive %s", len(odata), err, describeMap(got))
+				}
+			}
+			res.Probes["create-inside-create"]++
+		}
+	}
 	if !c05Guard(res, "Create", func() { cerr = modzip.Create(w, mod.m, list) }) {
 		return res
 	}
